@@ -20,13 +20,13 @@ use fuel_crypto::{Message, SecretKey, Signature};
 use fuel_tx::{
     field::{Inputs, Outputs},
     policies::Policies,
-    ConsensusParameters, FormatValidityChecks, GasCosts, Input, Output, PredicateParameters, Script, Transaction, TxPointer,
-    UniqueIdentifier, UtxoId, Witness,
+    BlobBody, BlobId, BlobIdExt, ConsensusParameters, Contract, FormatValidityChecks, GasCosts, Input, Output, PredicateParameters, Salt,
+    StorageSlot, Transaction, TxPointer, UniqueIdentifier, UpgradePurpose, UploadSubsection, UtxoId, Witness,
 };
 use fuel_tx::consensus_parameters::gas::GasCostsValuesV7;
 use fuel_types::{Address, AssetId, BlockHeight, Bytes32, ChainId, ContractId, Nonce};
 use fuel_vm::{
-    checked_transaction::{CheckPredicateParams, CheckPredicates, Checked, EstimatePredicates, IntoChecked, ParallelExecutor},
+    checked_transaction::{CheckPredicateParams, CheckPredicates, Checked, CheckedTransaction, EstimatePredicates, IntoChecked, ParallelExecutor},
     error::PredicateVerificationFailed,
     interpreter::{MemoryInstance, NotSupportedEcal},
     pool::VmMemoryPool,
@@ -132,24 +132,105 @@ fn costs_json(g: &GasCosts) -> Value {
 // ------------------------------------------------------------------------------------------------
 // concrete transaction description (always rebuilt from parts: no stale cached metadata)
 // ------------------------------------------------------------------------------------------------
+/// transaction kinds: 0 Script, 1 Create, 2 Blob, 3 Upload, 4 Upgrade (state transition)
+const KINDS: [&str; 5] = ["Script", "Create", "Blob", "Upload", "Upgrade"];
+
 #[derive(Clone)]
 struct CTx {
+    kind: usize,
     gas_limit: Word,
     receipts_root: Bytes32,
     script: Vec<u8>,
     script_data: Vec<u8>,
+    /// Create: contract byte code; Blob: blob data; Upload: the (single-subsection) byte code; all in the witness that
+    /// FOLLOWS the signature witnesses, so that the witness indices of signed inputs mean the same for every kind
+    payload: Vec<u8>,
+    /// Create: salt; Upgrade: state-transition root
+    salt: [u8; 32],
+    /// one field of the kind-specific body changed after construction (mutation experiments)
+    body_mut: Option<&'static str>,
     policies: Policies,
     inputs: Vec<Input>,
     outputs: Vec<Output>,
     witnesses: Vec<Witness>,
+    /// witnesses after the payload witness
+    tail_witnesses: Vec<Witness>,
 }
 
 impl CTx {
-    fn to_script(&self) -> Script {
-        let mut s = Transaction::script(self.gas_limit, self.script.clone(), self.script_data.clone(), self.policies,
-                                        self.inputs.clone(), self.outputs.clone(), self.witnesses.clone());
-        *fuel_tx::field::ReceiptsRoot::receipts_root_mut(&mut s) = self.receipts_root;
-        s
+    fn to_tx(&self) -> Transaction {
+        use fuel_tx::field::{BlobId as BlobIdF, BytecodeRoot, BytecodeWitnessIndex, ProofSet, ReceiptsRoot, Salt as SaltF, SubsectionIndex,
+                             SubsectionsNumber, Witnesses};
+        let (pol, ins, outs, mut wits) = (self.policies, self.inputs.clone(), self.outputs.clone(), self.witnesses.clone());
+        let widx = wits.len() as u16;
+        let bm = self.body_mut.unwrap_or("");
+        match self.kind {
+            1 => {
+                let salt = Salt::new(self.salt);
+                let sr = Contract::initial_state_root(std::iter::empty());
+                let id = Contract::id(&salt, &Contract::root_from_code(&self.payload), &sr);
+                let mut outs = outs;
+                outs.push(Output::contract_created(id, sr));
+                wits.push(self.payload.clone().into());
+                wits.extend(self.tail_witnesses.iter().cloned());
+                let slots = if bm == "storage_slots" { vec![StorageSlot::new(Bytes32::new([7; 32]), Bytes32::new([9; 32]))] } else { vec![] };
+                let mut t = Transaction::create(widx, pol, salt, slots, ins, outs, wits);
+                match bm {
+                    "bytecode_witness_index" => *t.bytecode_witness_index_mut() = widx.wrapping_add(1),
+                    "salt" => *t.salt_mut() = Salt::new(flip32(&self.salt)),
+                    _ => {}
+                }
+                t.into()
+            }
+            2 => {
+                wits.push(self.payload.clone().into());
+                wits.extend(self.tail_witnesses.iter().cloned());
+                let mut t = Transaction::blob(BlobBody { id: BlobId::compute(&self.payload), witness_index: widx }, pol, ins, outs, wits);
+                match bm {
+                    "id" => *t.blob_id_mut() = BlobId::new(flip32(&(*t.blob_id()).into())),
+                    "witness_index" => *t.bytecode_witness_index_mut() = widx.wrapping_add(1),
+                    _ => {}
+                }
+                t.into()
+            }
+            3 => {
+                let sub = UploadSubsection::split_bytecode(&self.payload, self.payload.len().max(1)).expect("split").remove(0);
+                let mut t = Transaction::upload_from_subsection(sub, pol, ins, outs, wits);
+                t.witnesses_mut().extend(self.tail_witnesses.iter().cloned());
+                match bm {
+                    "root" => *t.bytecode_root_mut() = Bytes32::new(flip32(&(*t.bytecode_root()).into())),
+                    "witness_index" => *t.bytecode_witness_index_mut() = widx.wrapping_add(1),
+                    "subsection_index" => *t.subsection_index_mut() = t.subsection_index().wrapping_add(1),
+                    "subsections_number" => *t.subsections_number_mut() = t.subsections_number().wrapping_add(1),
+                    "proof_set" => t.proof_set_mut().push(Bytes32::new([3; 32])),
+                    _ => {}
+                }
+                t.into()
+            }
+            4 => {
+                wits.extend(self.tail_witnesses.iter().cloned());
+                let root = if bm == "purpose" { flip32(&self.salt) } else { self.salt };
+                Transaction::upgrade(UpgradePurpose::StateTransition { root: Bytes32::new(root) }, pol, ins, outs, wits).into()
+            }
+            _ => {
+                wits.extend(self.tail_witnesses.iter().cloned());
+                let mut t = Transaction::script(self.gas_limit, self.script.clone(), self.script_data.clone(), pol, ins, outs, wits);
+                *t.receipts_root_mut() = self.receipts_root;
+                t.into()
+            }
+        }
+    }
+}
+
+fn tx_inputs(tx: &Transaction) -> Vec<Input> {
+    use fuel_tx::field::Inputs as _;
+    match tx {
+        Transaction::Script(t) => t.inputs().clone(),
+        Transaction::Create(t) => t.inputs().clone(),
+        Transaction::Upgrade(t) => t.inputs().clone(),
+        Transaction::Upload(t) => t.inputs().clone(),
+        Transaction::Blob(t) => t.inputs().clone(),
+        Transaction::Mint(_) => vec![],
     }
 }
 
@@ -174,6 +255,18 @@ fn world(cost: &Value, cap: Word, chain: u64) -> World {
     let cpp = CheckPredicateParams::from(&params);
     let base = *params.base_asset_id();
     World { chain: ChainId::new(chain), params, cpp, base }
+}
+
+/// an Upgrade transaction needs an input owned by the privileged address: make it the owner of the first input
+fn world_for(w: &World, ctx: &CTx) -> World {
+    if ctx.kind != 4 {
+        return w.clone();
+    }
+    let mut w2 = w.clone();
+    if let Some(o) = ctx.inputs.iter().find_map(|i| i.input_owner().copied()) {
+        w2.params.set_privileged_address(o);
+    }
+    w2
 }
 
 fn b32(tag: u8, i: usize) -> [u8; 32] {
@@ -202,7 +295,7 @@ fn carrier_name(c: u8) -> &'static str { ["coin", "mcoin", "mdata"][c.min(2) as 
 
 fn sign_witnesses(ctx: &mut CTx, wits: &[WitD], chain: &ChainId) -> Bytes32 {
     ctx.witnesses = wits.iter().map(|_| Witness::from(vec![0u8; 64])).collect();
-    let id = ctx.to_script().id(chain);
+    let id = ctx.to_tx().id(chain);
     ctx.witnesses = wits
         .iter()
         .map(|w| match w {
@@ -222,16 +315,21 @@ fn sign_witnesses(ctx: &mut CTx, wits: &[WitD], chain: &ChainId) -> Bytes32 {
     id
 }
 
-fn default_ctx(inputs: Vec<Input>, outputs: Vec<Output>) -> CTx {
+fn default_ctx(kind: usize, inputs: Vec<Input>, outputs: Vec<Output>) -> CTx {
     CTx {
-        gas_limit: 1000,
+        kind,
+        gas_limit: if kind == 0 { 1000 } else { 0 },
         receipts_root: Bytes32::zeroed(),
         script: op::ret(RegId::ONE).to_bytes().to_vec(),
         script_data: vec![1, 2, 3],
+        payload: vec![0x24, 0x04, 0x00, 0x00, 0x47, 0x00, 0x00, 0x00],
+        salt: [0x5a; 32],
+        body_mut: None,
         policies: Policies::new().with_max_fee(0).with_tip(0).with_witness_limit(100_000).with_maturity(BlockHeight::new(0)),
         inputs,
         outputs,
         witnesses: vec![],
+        tail_witnesses: vec![],
     }
 }
 
@@ -329,31 +427,55 @@ fn slots_of(order: &[usize], pred_idx: &[usize]) -> Vec<usize> {
     order.iter().filter_map(|i| pred_idx.iter().position(|p| p == i)).collect()
 }
 
+macro_rules! with_checked {
+    ($ct:expr, $c:ident => $body:expr) => {
+        match $ct {
+            CheckedTransaction::Script($c) => $body,
+            CheckedTransaction::Create($c) => $body,
+            CheckedTransaction::Upgrade($c) => $body,
+            CheckedTransaction::Upload($c) => $body,
+            CheckedTransaction::Blob($c) => $body,
+            CheckedTransaction::Mint(_) => panic!("mint"),
+        }
+    };
+}
+
 /// sequential verification; mem: "fresh" | "reused" | "dirty"
-fn run_seq(ck: &Checked<Script>, w: &World, mem: &str, mems: &mut Mems) -> Result<PRes, String> {
+fn run_seq(ck: &CheckedTransaction, w: &World, mem: &str, mems: &mut Mems) -> Result<PRes, String> {
     pres(catch(AssertUnwindSafe(|| {
-        let r = match mem {
-            "reused" => check_predicates(ck, &w.cpp, &mut mems.reused, &EmptyStorage, NotSupportedEcal),
-            "dirty" => check_predicates(ck, &w.cpp, dirty_memory(), &EmptyStorage, NotSupportedEcal),
-            _ => check_predicates(ck, &w.cpp, MemoryInstance::new(), &EmptyStorage, NotSupportedEcal),
-        };
+        let r = with_checked!(ck, c => match mem {
+            "reused" => check_predicates(c, &w.cpp, &mut mems.reused, &EmptyStorage, NotSupportedEcal),
+            "dirty" => check_predicates(c, &w.cpp, dirty_memory(), &EmptyStorage, NotSupportedEcal),
+            _ => check_predicates(c, &w.cpp, MemoryInstance::new(), &EmptyStorage, NotSupportedEcal),
+        });
         r.map(|c| c.gas_used()).map_err(|e| format!("{e:?}"))
     })))
 }
-fn run_par(ck: &Checked<Script>, w: &World, slots: &[usize], threads: bool, dirty_pool: bool) -> Result<PRes, String> {
+fn run_par(ck: &CheckedTransaction, w: &World, slots: &[usize], threads: bool, dirty_pool: bool) -> Result<PRes, String> {
     *ORDER.lock().unwrap() = (slots.to_vec(), threads);
     let pool = Pool { dirty: if dirty_pool { Some(dirty_memory()) } else { None } };
     pres(catch(AssertUnwindSafe(|| {
-        futures::executor::block_on(check_predicates_async::<Script, NotSupportedEcal, Ordered>(ck, &w.cpp, &pool, &EmptyStorage, NotSupportedEcal))
+        with_checked!(ck, c => futures::executor::block_on(check_predicates_async::<_, NotSupportedEcal, Ordered>(c, &w.cpp, &pool, &EmptyStorage, NotSupportedEcal)))
             .map(|c| c.gas_used())
             .map_err(|e| format!("{e:?}"))
     })))
 }
-fn gases_of(tx: &Script) -> Vec<String> {
-    tx.inputs().iter().map(|i| i.predicate_gas_used().map(|g| g.to_string()).unwrap_or_default()).collect()
+/// the same two checks through the Checked<Transaction> wrapper (verdict only: the wrapper returns no gas)
+fn run_wrapped(ck: &CheckedTransaction, w: &World, slots: &[usize]) -> Result<(bool, bool), String> {
+    *ORDER.lock().unwrap() = (slots.to_vec(), false);
+    let pool = Pool { dirty: None };
+    catch(AssertUnwindSafe(|| {
+        let c: Checked<Transaction> = ck.clone().into();
+        let a = c.clone().check_predicates(&w.cpp, MemoryInstance::new(), &EmptyStorage, NotSupportedEcal).is_ok();
+        let b = futures::executor::block_on(c.check_predicates_async::<NotSupportedEcal, Ordered>(&w.cpp, &pool, &EmptyStorage, NotSupportedEcal)).is_ok();
+        (a, b)
+    }))
 }
-/// estimation on a copy; returns (ok, err, estimated tx)
-fn run_est_seq(tx: &Script, w: &World, mem: &str, mems: &mut Mems) -> Result<(bool, String, Script), String> {
+fn gases_of(tx: &Transaction) -> Vec<String> {
+    tx_inputs(tx).iter().map(|i| i.predicate_gas_used().map(|g| g.to_string()).unwrap_or_default()).collect()
+}
+/// estimation on a copy (through the Transaction enum, which dispatches to the typed transaction); returns (ok, err, estimated tx)
+fn run_est_seq(tx: &Transaction, w: &World, mem: &str, mems: &mut Mems) -> Result<(bool, String, Transaction), String> {
     let mut t = tx.clone();
     let r = catch(AssertUnwindSafe(|| match mem {
         "reused" => t.estimate_predicates(&w.cpp, &mut mems.reused, &EmptyStorage),
@@ -362,7 +484,7 @@ fn run_est_seq(tx: &Script, w: &World, mem: &str, mems: &mut Mems) -> Result<(bo
     }))?;
     Ok((r.is_ok(), r.err().map(|e| format!("{e:?}")).unwrap_or_default(), t))
 }
-fn run_est_par(tx: &Script, w: &World, slots: &[usize], threads: bool, dirty_pool: bool) -> Result<(bool, String, Script), String> {
+fn run_est_par(tx: &Transaction, w: &World, slots: &[usize], threads: bool, dirty_pool: bool) -> Result<(bool, String, Transaction), String> {
     *ORDER.lock().unwrap() = (slots.to_vec(), threads);
     let pool = Pool { dirty: if dirty_pool { Some(dirty_memory()) } else { None } };
     let mut t = tx.clone();
@@ -371,14 +493,20 @@ fn run_est_par(tx: &Script, w: &World, slots: &[usize], threads: bool, dirty_poo
     }))?;
     Ok((r.is_ok(), r.err().map(|e| format!("{e:?}")).unwrap_or_default(), t))
 }
-fn sig_tx(tx: &Script, chain: &ChainId) -> Result<(bool, String), String> {
+fn sig_tx(tx: &Transaction, chain: &ChainId) -> Result<(bool, String), String> {
     let r = catch(AssertUnwindSafe(|| tx.check_signatures(chain)))?;
     Ok((r.is_ok(), r.err().map(|e| format!("{e:?}")).unwrap_or_default()))
 }
-fn basic(tx: &Script, w: &World) -> Result<Result<Checked<Script>, String>, String> {
-    catch(AssertUnwindSafe(|| tx.clone().into_checked_basic(BlockHeight::new(0), &w.params).map_err(|e| format!("{e:?}"))))
+fn basic(tx: &Transaction, w: &World) -> Result<Result<CheckedTransaction, String>, String> {
+    catch(AssertUnwindSafe(|| tx.clone().into_checked_basic(BlockHeight::new(0), &w.params).map(CheckedTransaction::from).map_err(|e| format!("{e:?}"))))
 }
-fn full(tx: &Script, w: &World, mem: &str, mems: &mut Mems) -> Result<(bool, String), String> {
+fn sig_checked(ck: &CheckedTransaction, chain: &ChainId) -> Result<bool, String> {
+    catch(AssertUnwindSafe(|| {
+        let c: Checked<Transaction> = ck.clone().into();
+        c.check_signatures(chain).is_ok()
+    }))
+}
+fn full(tx: &Transaction, w: &World, mem: &str, mems: &mut Mems) -> Result<(bool, String), String> {
     let r = catch(AssertUnwindSafe(|| match mem {
         "reused" => tx.clone().into_checked_reusable_memory(BlockHeight::new(0), &w.params, &mut mems.reused, &EmptyStorage).map(|_| ()),
         "dirty" => tx.clone().into_checked_reusable_memory(BlockHeight::new(0), &w.params, dirty_memory(), &EmptyStorage).map(|_| ()),
@@ -392,16 +520,20 @@ fn full(tx: &Script, w: &World, mem: &str, mems: &mut Mems) -> Result<(bool, Str
 // ------------------------------------------------------------------------------------------------
 struct Built {
     ctx: CTx,
-    tx: Script,
+    tx: Transaction,
     pred_idx: Vec<usize>,
     carriers: Vec<u8>,
+    w: World,
 }
 
 /// abstract transaction of a REPLAY line -> real transaction.  Owners "A"/"B" are key holders, "P" the
 /// predicate's own address, "X" some other address.
 fn build_abstract(atx: &Value, rot: usize, w: &World) -> Built {
     let ins = atx["inputs"].as_array().cloned().unwrap_or_default();
-    let mut carriers: Vec<u8> = (0..ins.len()).map(|j| ((j + rot) % 3) as u8).collect();
+    // the transaction kind rotates too; only scripts may carry message-data inputs
+    let kind = (rot / 3) % 5;
+    let ncar = if kind == 0 { 3 } else { 2 };
+    let mut carriers: Vec<u8> = (0..ins.len()).map(|j| ((j + rot) % ncar) as u8).collect();
     if !carriers.iter().any(|c| *c < 2) && !carriers.is_empty() {
         carriers[0] = (rot % 2) as u8; // a transaction needs one spendable input
     }
@@ -448,10 +580,11 @@ fn build_abstract(atx: &Value, rot: usize, w: &World) -> Built {
         })
         .collect();
     let outputs = vec![Output::coin(addr_of("C"), 10, w.base), Output::change(addr_of("C"), 0, w.base)];
-    let mut ctx = default_ctx(inputs, outputs);
+    let mut ctx = default_ctx(kind, inputs, outputs);
     sign_witnesses(&mut ctx, &wits, &w.chain);
-    let tx = ctx.to_script();
-    Built { ctx, tx, pred_idx, carriers }
+    let tx = ctx.to_tx();
+    let w = world_for(w, &ctx);
+    Built { ctx, tx, pred_idx, carriers, w }
 }
 
 fn tf(b: bool) -> &'static str { if b { "T" } else { "F" } }
@@ -474,10 +607,11 @@ fn replay(o: &Opts) -> Res<()> {
         for rep in 0..reps {
             let rot = ln + rep;
             let b = build_abstract(atx, rot, &w);
+            let w = b.w.clone();
             let slots = slots_of(&order, &b.pred_idx);
             let memmode = ["fresh", "reused", "dirty"][rot % 3];
             let threads = rot % 64 == 63;
-            let ctxv = json!({"line": ln, "rep": rep, "carriers": b.carriers.iter().map(|c| carrier_name(*c)).collect::<Vec<_>>(),
+            let ctxv = json!({"line": ln, "rep": rep, "kind": KINDS[b.ctx.kind], "carriers": b.carriers.iter().map(|c| carrier_name(*c)).collect::<Vec<_>>(),
                               "mem": memmode, "threads": threads, "order": order, "tx": atx, "mode": l["mode"]});
             let mut mism = |what: &str, expected: Value, observed: Value, extra: Value| {
                 // every mismatch is counted; the first few of each (kind, reason) are written out in full
@@ -520,7 +654,7 @@ fn replay(o: &Opts) -> Res<()> {
                         continue;
                     }
                 };
-                let c_ok = host!(catch(AssertUnwindSafe(|| ck.clone().check_signatures(&w.chain).is_ok())), "Checked::check_signatures");
+                let c_ok = host!(sig_checked(&ck, &w.chain), "Checked::check_signatures");
                 steps += 1;
                 if c_ok != s_ok {
                     mism("sig_checked_vs_tx", json!(tf(s_ok)), json!(tf(c_ok)), json!(null));
@@ -541,6 +675,11 @@ fn replay(o: &Opts) -> Res<()> {
                 } else if pr.ok && pr.gas != e_gas {
                     mism("par_gas", json!(e_gas.to_string()), json!(pr.gas.to_string()), json!(null));
                 }
+                let (wa, wb) = host!(run_wrapped(&ck, &w, &slots), "Checked<Transaction>::check_predicates");
+                steps += 2;
+                if wa != e_ok || wb != e_ok {
+                    mism("wrapped_ok", json!(e_ok), json!([wa, wb]), json!(null));
+                }
                 if sq.ok != pr.ok || (sq.ok && sq.gas != pr.gas) {
                     mism("seq_vs_par", json!({"ok": sq.ok, "gas": sq.gas.to_string()}), json!({"ok": pr.ok, "gas": pr.gas.to_string()}), json!([sq.err, pr.err]));
                 }
@@ -559,7 +698,7 @@ fn replay(o: &Opts) -> Res<()> {
                     for m in tamper_set(&b.ctx, rot) {
                         let mut c2 = b.ctx.clone();
                         apply_mut(&mut c2, &m, &w);
-                        let t2 = c2.to_script();
+                        let t2 = c2.to_tx();
                         let chain2 = if m.at == "chain" { ChainId::new(1) } else { w.chain };
                         let (ok2, _) = host!(sig_tx(&t2, &chain2), "check_signatures(tampered)");
                         steps += 1;
@@ -682,11 +821,19 @@ fn output_fields(o: &Output) -> Vec<&'static str> {
 
 fn all_mutations(c: &CTx) -> Vec<Mutn> {
     let mut v = vec![];
-    for f in ["script_gas_limit", "receipts_root", "script", "script_data"] {
-        v.push(Mutn { at: "body", i: 0, kind: "Script".into(), field: f });
+    let kname = KINDS[c.kind];
+    let body: &[&'static str] = match c.kind {
+        1 => &["bytecode_witness_index", "salt", "storage_slots"],
+        2 => &["id", "witness_index"],
+        3 => &["root", "witness_index", "subsection_index", "subsections_number", "proof_set"],
+        4 => &["purpose"],
+        _ => &["script_gas_limit", "receipts_root", "script", "script_data"],
+    };
+    for f in body {
+        v.push(Mutn { at: "body", i: 0, kind: kname.into(), field: f });
     }
     for f in ["tip", "witness_limit", "maturity", "max_fee", "expiration", "owner"] {
-        v.push(Mutn { at: "policies", i: 0, kind: "Script".into(), field: f });
+        v.push(Mutn { at: "policies", i: 0, kind: kname.into(), field: f });
     }
     for (i, x) in c.inputs.iter().enumerate() {
         for f in input_fields(x) {
@@ -701,9 +848,9 @@ fn all_mutations(c: &CTx) -> Vec<Mutn> {
     for i in 0..c.witnesses.len() {
         v.push(Mutn { at: "witnesses", i, kind: "Witness".into(), field: "data" });
     }
-    v.push(Mutn { at: "chain", i: 0, kind: "Script".into(), field: "chain_id" });
+    v.push(Mutn { at: "chain", i: 0, kind: kname.into(), field: "chain_id" });
     for f in ["append_output", "remove_output", "append_input", "append_witness"] {
-        v.push(Mutn { at: "shape", i: 0, kind: "Script".into(), field: f });
+        v.push(Mutn { at: "shape", i: 0, kind: kname.into(), field: f });
     }
     v
 }
@@ -822,6 +969,7 @@ fn mutate_output(o: &Output, field: &str) -> Output {
 fn apply_mut(c: &mut CTx, m: &Mutn, w: &World) {
     use fuel_tx::policies::PolicyType as PT;
     match m.at {
+        "body" if c.kind != 0 => c.body_mut = Some(m.field),
         "body" => match m.field {
             "script_gas_limit" => c.gas_limit = c.gas_limit.wrapping_add(1),
             "receipts_root" => c.receipts_root = Bytes32::new(flip32(&c.receipts_root.into())),
@@ -852,7 +1000,7 @@ fn apply_mut(c: &mut CTx, m: &Mutn, w: &World) {
                 let n = c.inputs.len();
                 c.inputs.push(mk_pred(n + 40, 0, Input::predicate_owner(op::ret(RegId::ONE).to_bytes()), 0, op::ret(RegId::ONE).to_bytes().to_vec(), vec![], w.base));
             }
-            _ => c.witnesses.push(Witness::from(vec![1u8, 2, 3])),
+            _ => c.tail_witnesses.push(Witness::from(vec![1u8, 2, 3])),
         },
         _ => {}
     }
@@ -913,15 +1061,17 @@ fn gen_opaque(rng: &mut StdRng) -> Vec<u8> {
 /// declared gas +-1) to be consistent with it.
 fn measure(code: &[u8], w: &World) -> Option<(String, Word)> {
     let owner = Input::predicate_owner(code);
-    let mut ctx = default_ctx(vec![mk_pred(0, 0, owner, 0, code.to_vec(), vec![], w.base)], vec![]);
+    let mut ctx = default_ctx(0, vec![mk_pred(0, 0, owner, 0, code.to_vec(), vec![], w.base)], vec![]);
     sign_witnesses(&mut ctx, &[], &w.chain);
-    let mut t = ctx.to_script();
-    let r = catch(AssertUnwindSafe(|| t.estimate_predicates(&w.cpp, MemoryInstance::new(), &EmptyStorage))).ok()?;
-    r.ok()?;
-    let g = t.inputs()[0].predicate_gas_used()?;
-    let ck = catch(AssertUnwindSafe(|| t.clone().into_checked_basic(BlockHeight::new(0), &w.params))).ok()?.ok()?;
-    let v = catch(AssertUnwindSafe(|| check_predicates(&ck, &w.cpp, MemoryInstance::new(), &EmptyStorage, NotSupportedEcal))).ok()?;
-    Some((if v.is_ok() { "one".into() } else { "notone".into() }, g))
+    let t = ctx.to_tx();
+    let (ok, _, t) = run_est_seq(&t, w, "fresh", &mut Mems { reused: MemoryInstance::new() }).ok()?;
+    if !ok {
+        return None;
+    }
+    let g = tx_inputs(&t)[0].predicate_gas_used()?;
+    let ck = basic(&t, w).ok()?.ok()?;
+    let v = run_seq(&ck, w, "fresh", &mut Mems { reused: MemoryInstance::new() }).ok()?;
+    Some((if v.ok { "one".into() } else { "notone".into() }, g))
 }
 
 fn record(o: &Opts) -> Res<()> {
@@ -947,6 +1097,9 @@ fn record(o: &Opts) -> Res<()> {
         let good = part == "mutate" || rng.gen_bool(0.45);
         let cap: Word = if good { 100_000_000 } else { cap_pick };
         let w = world(&sched, cap, chain);
+        // transaction kind: scripts mostly (only they may carry message-data and contract inputs)
+        let kind = *[0usize, 0, 0, 1, 2, 3, 4].choose(&mut rng).unwrap();
+        let ncar = if kind == 0 { 3u8 } else { 2u8 };
         let nin = rng.gen_range(1..=6usize);
         let nwit = rng.gen_range(0..=3usize);
         let mut wits: Vec<WitD> = (0..nwit)
@@ -967,7 +1120,7 @@ fn record(o: &Opts) -> Res<()> {
         let mut gens: Vec<GenIn> = vec![];
         let mut any_spendable = false;
         for j in 0..nin {
-            let mut carrier = rng.gen_range(0..3u8);
+            let mut carrier = rng.gen_range(0..ncar);
             if j == nin - 1 && !any_spendable {
                 carrier = rng.gen_range(0..2);
             }
@@ -1029,28 +1182,32 @@ fn record(o: &Opts) -> Res<()> {
             }
         }
         let mut outputs = vec![Output::coin(addr_of("C"), 10, w.base), Output::change(addr_of("B"), 0, w.base)];
-        if rng.gen_bool(0.5) {
+        if kind == 0 && rng.gen_bool(0.5) {
             outputs.push(Output::variable(Address::zeroed(), 0, AssetId::zeroed()));
         }
         // a contract input with its output (nothing to authorise; exercises the "other" input kind)
-        if rng.gen_bool(0.3) {
+        if kind == 0 && rng.gen_bool(0.3) {
             let idx = gens.len();
             gens.push(GenIn { input: Input::contract(UtxoId::new(b32(0xcc, idx).into(), 3), Bytes32::new(b32(0xb0, idx)), Bytes32::new(b32(0xb1, idx)), TxPointer::default(), ContractId::new(b32(0xcd, idx))),
                               desc: json!({"k": "other", "c": "contract"}) });
             outputs.push(Output::contract(idx as u16, Bytes32::new(b32(0xb2, idx)), Bytes32::new(b32(0xb3, idx))));
         }
-        let mut ctx = default_ctx(gens.iter().map(|g| g.input.clone()).collect(), outputs);
-        ctx.gas_limit = rng.gen_range(0..5000);
+        let mut ctx = default_ctx(kind, gens.iter().map(|g| g.input.clone()).collect(), outputs);
+        if kind == 0 {
+            ctx.gas_limit = rng.gen_range(0..5000);
+        }
+        ctx.payload = (0..rng.gen_range(1..40)).map(|_| rng.gen::<u8>()).collect();
+        let w = world_for(&w, &ctx);
         let id = sign_witnesses(&mut ctx, &wits, &w.chain);
-        let tx = ctx.to_script();
-        let pred_idx: Vec<usize> = tx.inputs().iter().enumerate().filter(|(_, i)| i.predicate_gas_used().is_some()).map(|(k, _)| k).collect();
+        let tx = ctx.to_tx();
+        let pred_idx: Vec<usize> = tx_inputs(&tx).iter().enumerate().filter(|(_, i)| i.predicate_gas_used().is_some()).map(|(k, _)| k).collect();
         let wj: Vec<Value> = wits.iter().map(|x| match x {
             WitD::Sig { signer, over, extra: 0 } => json!({"signer": signer, "over": hx(over.map(Bytes32::new).unwrap_or(id))}),
             WitD::Sig { signer, extra, .. } => json!({"signer": "none", "over": "", "len": 64 + extra, "base": signer}),
             WitD::Raw(b) => json!({"signer": "none", "over": "", "len": b.len()}),
         }).collect();
         out.ev(json!({"ev": "Seg", "n": n, "part": part}));
-        out.ev(json!({"ev": "Tx", "n": n, "chain": chain.to_string(), "id": hx(id), "keys": keys_json(&names),
+        out.ev(json!({"ev": "Tx", "n": n, "kind": KINDS[kind], "chain": chain.to_string(), "id": hx(id), "keys": keys_json(&names),
                       "cost": costs_json(w.params.gas_costs()), "cap": cap.to_string(),
                       "inputs": gens.iter().map(|g| g.desc.clone()).collect::<Vec<_>>(), "wits": wj, "good": good}));
         macro_rules! host {
@@ -1074,7 +1231,7 @@ fn record(o: &Opts) -> Res<()> {
                 continue;
             }
         };
-        let c_ok = host!(catch(AssertUnwindSafe(|| ck.clone().check_signatures(&w.chain).is_ok())), "Checked::check_signatures");
+        let c_ok = host!(sig_checked(&ck, &w.chain), "Checked::check_signatures");
         out.ev(json!({"ev": "CheckSig", "via": "checked", "ok": c_ok}));
         // predicates: sequential in every memory mode, parallel in several completion orders
         for mem in ["fresh", "reused", "dirty"] {
@@ -1094,19 +1251,25 @@ fn record(o: &Opts) -> Res<()> {
             out.ev(json!({"ev": "CheckPred", "mode": "par", "exec": if threads { "threads" } else { "lazy" }, "mem": if k == 1 { "dirtypool" } else { "pool" },
                           "order": order, "ok": r.ok, "gas": r.gas.to_string(), "err": r.err}));
         }
+        {
+            // the same checks through the Checked<Transaction> wrapper (dispatch on the transaction kind; verdicts only)
+            let (a, b) = host!(run_wrapped(&ck, &w, &slots_of(&pred_idx, &pred_idx)), "Checked<Transaction>::check_predicates");
+            out.ev(json!({"ev": "CheckPredV", "mode": "seq", "ok": a}));
+            out.ev(json!({"ev": "CheckPredV", "mode": "par", "ok": b}));
+        }
         for mem in ["fresh", "reused"] {
             let (f_ok, f_err) = host!(full(&tx, &w, mem, &mut mems), "into_checked");
             out.ev(json!({"ev": "IntoChecked", "mem": mem, "ok": f_ok, "err": f_err}));
         }
         let (f_ok, _) = host!(full(&tx, &w, "fresh", &mut mems), "into_checked");
         // single-field mutations of an accepted transaction with a signed input
-        let has_signed = tx.inputs().iter().any(|i| i.witness_index().is_some());
+        let has_signed = tx_inputs(&tx).iter().any(|i| i.witness_index().is_some());
         if part == "mutate" && f_ok && has_signed {
             for m in all_mutations(&ctx) {
                 let mut c2 = ctx.clone();
                 apply_mut(&mut c2, &m, &w);
                 let chain2 = if m.at == "chain" { ChainId::new(chain.wrapping_add(1)) } else { w.chain };
-                let t2 = c2.to_script();
+                let t2 = c2.to_tx();
                 let id2 = host!(catch(AssertUnwindSafe(|| t2.id(&chain2))), "id");
                 let (ok2, err2) = host!(sig_tx(&t2, &chain2), "check_signatures(mutated)");
                 let mut d = m.describe();
@@ -1127,7 +1290,7 @@ fn record(o: &Opts) -> Res<()> {
                 }
             }
             sign_witnesses(&mut zeroed, &wits, &w.chain);
-            let ztx = zeroed.to_script();
+            let ztx = zeroed.to_tx();
             out.ev(json!({"ev": "SetGas", "gases": gases_of(&ztx)}));
             let mem = ["fresh", "reused", "dirty"][n % 3];
             let (e_ok, e_err, etx) = host!(run_est_seq(&ztx, &w, mem, &mut mems), "estimate_predicates");
